@@ -114,7 +114,7 @@ def long_case(draw):
     contingency table is known in closed form from the interval overlaps and no frame sequence has to be built by the oracle."""
     c = draw(gs.segmentation_pair(q=8, max_T=16))
     fs = draw(st.sampled_from([1.0, 0.25, 0.0625, 1 / 64]))
-    e = draw(st.sampled_from([10, 12, 14, 15, 16, 16, 17, 17, 18, 19]))
+    e = draw(st.sampled_from([10, 12, 13, 13, 13, 14, 15, 16, 16, 17, 17, 18, 19]))
     T = c["ref_iv"][-1][1]
     S = max(8 * fs, 2.0 ** math.ceil(math.log2(2 ** e * fs / T)))     # power of two: scaling and the frame count stay exact
     for k in ("ref_iv", "est_iv"):
@@ -145,6 +145,17 @@ def pred_long(case, ctx):
     bij = len(cnt) == o["k_ref"] == o["k_est"]
     if bij and not abs(ari - 1.0) <= 1e-9:
         raise Violation("ARI = %r although the two frame partitions coincide; %r" % (ari, case))
+    if n <= 12288:
+        # pairwise / Rand build (frames x frames) agreement matrices: only up to 12 288 frames (3 x 150 MB)
+        if o["pw_p"] is not None and o["pw_r"] is not None:
+            p, r, f = ctx.call(segment.pairwise, *args, frame_size=fs, beta=beta)
+            _cmp("pairwise precision (%d frames)" % n, p, o["pw_p"], 1e-9, case)
+            _cmp("pairwise recall (%d frames)" % n, r, o["pw_r"], 1e-9, case)
+            _cmp("pairwise F (%d frames)" % n, f, oc.fbeta(o["pw_p"], o["pw_r"], beta), 1e-9, case)
+        _cmp("rand_index (%d frames)" % n, ctx.call(segment.rand_index, *args, frame_size=fs), o["rand"], 1e-9, case)
+        ctx.event("pairwise_and_rand_compared")
+        if n > 8192:
+            ctx.event("pairwise_and_rand_beyond_8192_frames")
     if n <= 2 ** 17 + 2 ** 16:
         mi, ami, nmi = ctx.call(segment.mutual_information, *args, frame_size=fs)
         _cmp("mutual information (%d frames)" % n, mi, o["mi"], 1e-9, case)
@@ -161,9 +172,9 @@ def pred_long(case, ctx):
 
 
 SUBPROPS = [
-    SubProp("many_frames", pred_long, strategy=long_case, n=(60, 1500), shards=(6, 16), floor=0.1,
+    SubProp("many_frames", pred_long, strategy=long_case, n=(60, 1500), shards=(6, 8), floor=0.1,
             rule="the same annotations stretched to 2^10..2^19 frames (long recording / small frame_size); ARI, MI, AMI, NMI, NCE against the contingency "
-                 "table derived from interval overlaps (pairwise / Rand build n x n matrices and are not run here); NT = >= 2 labels each side, not a bijection"),
+                 "table derived from interval overlaps (pairwise / Rand build n x n matrices and are run up to 12 288 frames only); NT = >= 2 labels each side, not a bijection"),
     SubProp("clustering_indices", pred_indices, strategy=gs.segmentation_pair, n=(2500, 60000), shards=(4, 16), floor=0.15,
             rule="NT = both annotations have >= 2 frame labels and the label correspondence is not a bijection"),
 ]
